@@ -51,6 +51,8 @@ func main() {
 		cmdDCT()
 	case "dctone":
 		cmdDCTOne()
+	case "sparse":
+		cmdSparse()
 	default:
 		die("unknown subcommand %q", cmd)
 	}
